@@ -50,6 +50,10 @@ func main() {
 		probeRefs(dir, os.Args[3], l, c)
 		return
 	}
+	if len(os.Args) > 2 && os.Args[2] == "emptied" {
+		probeEmptied(dir)
+		return
+	}
 	if len(os.Args) > 2 && os.Args[2] == "defsall" {
 		probeDefsAll(dir)
 		return
